@@ -64,6 +64,12 @@ def main():
             name = os.path.basename(d)[:-3]
             rc, o = sh("cargo test --offline --test %s" % name, cwd=wt)
             res_with[name] = rc
+        if all(v == 0 for v in res_with.values()):
+            # some changes only show without the `parallel` feature
+            for d in demos:
+                name = os.path.basename(d)[:-3]
+                rc, o = sh("cargo test --offline --no-default-features --test %s" % name, cwd=wt)
+                res_with[name + " (--no-default-features)"] = rc
         meta["demo_with_change_rc"] = res_with
         sh(["git", "apply", "-R", patch], cwd=wt)
         res_without = {}
